@@ -24,6 +24,7 @@ import (
 	"time"
 
 	"github.com/BondMachineHQ/BondMachine/pkg/bmstack"
+	"github.com/BondMachineHQ/BondMachine/pkg/procbuilder"
 
 	"verif/harness/evid"
 	"verif/harness/tlaval"
@@ -39,6 +40,7 @@ type stackParams struct {
 	NS       int    `json:"ns"`
 	NR       int    `json:"nr"`
 	DataSize int    `json:"datasize"`
+	ViaSO    bool   `json:"-"` // the module is the one a Bondmachine's queue / stack shared object renders
 }
 
 type stackEvent struct {
@@ -66,7 +68,64 @@ type stackSim struct {
 	rn  []string
 }
 
+// soModule renders the module of a queue (FIFO) or stack (LIFO) shared object of a real Bondmachine
+// with NS processors that send to it and NR processors that receive from it.
+func soModule(p stackParams) (text string, sn, rn []string, err error) {
+	defer func() {
+		if e := recover(); e != nil {
+			err = fmt.Errorf("panic: %v", e)
+		}
+	}()
+	kind, sendOp, recvOp := "queue", "r2q", "q2r"
+	if p.Kind == "LIFO" {
+		kind, sendOp, recvOp = "stack", "r2t", "t2r"
+	}
+	bm := newBM(p.DataSize)
+	mk := func(op string) *procbuilder.Machine {
+		m := new(procbuilder.Machine)
+		m.Rsize = uint8(p.DataSize)
+		m.R, m.Modes = 1, []string{"ha"}
+		for _, o := range procbuilder.Allopcodes {
+			if o.Op_get_name() == op || o.Op_get_name() == "j" {
+				m.Op = append(m.Op, o)
+			}
+		}
+		return m
+	}
+	for i := 0; i < p.NS; i++ {
+		addProc(bm, mk(sendOp))
+		sn = append(sn, fmt.Sprintf("p%d%s_send", i, kind))
+	}
+	for i := 0; i < p.NR; i++ {
+		addProc(bm, mk(recvOp))
+		rn = append(rn, fmt.Sprintf("p%d%s_recv", p.NS+i, kind))
+	}
+	bm.Add_shared_objects([]string{kind + ":" + strconv.Itoa(p.Depth)})
+	if len(bm.Shared_objects) != 1 {
+		return "", nil, nil, fmt.Errorf("shared object %s:%d was not instantiated", kind, p.Depth)
+	}
+	for i := 0; i < p.NS+p.NR; i++ {
+		bm.Connect_processor_shared_object([]string{strconv.Itoa(i), "0"})
+	}
+	return bm.Shared_objects[0].Write_verilog(bm, 0, "bmstack", "iverilog"), sn, rn, nil
+}
+
 func newStackSim(p stackParams) (*stackSim, error) {
+	if p.ViaSO {
+		text, sn, rn, err := soModule(p)
+		if err != nil {
+			return nil, err
+		}
+		d, err := vlog.Parse(text)
+		if err != nil {
+			return nil, fmt.Errorf("generated Verilog does not parse: %v", err)
+		}
+		sim, err := vlog.Elaborate(d, "bmstack")
+		if err != nil {
+			return nil, fmt.Errorf("generated Verilog does not elaborate: %v", err)
+		}
+		return &stackSim{p: p, sim: sim, sn: sn, rn: rn}, nil
+	}
 	s := bmstack.CreateBasicStack()
 	s.ModuleName = "bmstack"
 	s.DataSize = p.DataSize
@@ -332,17 +391,19 @@ func runC13(r *evid.Run) {
 	var insts []inst
 	for _, k := range []string{"LIFO", "FIFO"} {
 		for d := 1; d <= 3; d++ {
-			insts = append(insts, inst{stackParams{k, d, 1, 1, 1}, false})
+			insts = append(insts, inst{stackParams{k, d, 1, 1, 1, false}, false})
 		}
-		insts = append(insts, inst{stackParams{k, 2, 2, 1, 1}, false}, inst{stackParams{k, 2, 1, 2, 1}, false})
-		insts = append(insts, inst{stackParams{k, 2, 1, 1, 1}, true}, inst{stackParams{k, 2, 2, 2, 1}, true})
+		insts = append(insts, inst{stackParams{k, 2, 2, 1, 1, false}, false}, inst{stackParams{k, 2, 1, 2, 1, false}, false})
+		insts = append(insts, inst{stackParams{k, 2, 1, 1, 1, false}, true}, inst{stackParams{k, 2, 2, 2, 1, false}, true})
+		// the same module as the queue / stack shared object of a Bondmachine renders it
+		insts = append(insts, inst{stackParams{k, 2, 1, 1, 1, true}, false}, inst{stackParams{k, 3, 2, 1, 1, true}, true})
 	}
 	if r.Thorough() {
 		for _, k := range []string{"LIFO", "FIFO"} {
 			insts = append(insts,
-				inst{stackParams{k, 2, 2, 2, 1}, false}, inst{stackParams{k, 3, 2, 2, 1}, true},
-				inst{stackParams{k, 4, 1, 1, 1}, false}, inst{stackParams{k, 3, 3, 1, 1}, true}, inst{stackParams{k, 3, 1, 3, 1}, true},
-				inst{stackParams{k, 2, 3, 2, 1}, true})
+				inst{stackParams{k, 2, 2, 2, 1, false}, false}, inst{stackParams{k, 3, 2, 2, 1, false}, true},
+				inst{stackParams{k, 4, 1, 1, 1, false}, false}, inst{stackParams{k, 3, 3, 1, 1, false}, true}, inst{stackParams{k, 3, 1, 3, 1, false}, true},
+				inst{stackParams{k, 2, 3, 2, 1, false}, true})
 		}
 	}
 	type mcOut struct {
@@ -457,7 +518,9 @@ func runC13(r *evid.Run) {
 					}
 				}
 				if len(cands) == 0 {
-					break
+					// the real module's registers left the model's graph: keep driving it with the inputs of
+					// some model successor, so that the interface trace shows what the divergence does
+					cands = nx
 				}
 				cur = cands[rng.Intn(len(cands))]
 			}
